@@ -1087,8 +1087,14 @@ def tie_C10(ctx):
                     pre = ["u32"] * rng.choice([info["blk"] - 1, info["blk"], 1, 0])
             cont = history(rng, g, rng.randrange(2, 7))
             kind = i % 4
-            if kind in (0, 1):      # clone mid-history
+            if kind == 0:           # clone mid-history
                 c = [f"new 0 {g} seed {seed.hex()}"] + op_lines(0, pre) + ["clone 1 0", "eq 0 1"]
+            elif kind == 1:         # clone_from into a used generator of the same type (its buffer / index / half flag are stale)
+                dpre = history(rng, g, rng.randrange(0, 4))
+                if "blk" in info:
+                    dpre = ["u32"] * rng.choice([0, 1, info["blk"] - 1, info["blk"], 2 * info["blk"] - 1]) + dpre + (["u32"] if i % 8 == 1 else [])
+                c = [f"new 0 {g} seed {seed.hex()}"] + op_lines(0, pre) + [f"new 1 {g} seed {pick_seed(rng, info['seed']).hex()}"] + \
+                    op_lines(1, dpre) + ["clonefrom 1 0", "eq 0 1"]
             elif kind == 2:         # same seed, same history
                 c = [f"new 0 {g} seed {seed.hex()}", f"new 1 {g} seed {seed.hex()}"] + \
                     [l for o in pre for l in op_lines(0, [o]) + op_lines(1, [o])] + ["eq 0 1"]
@@ -1106,7 +1112,7 @@ def tie_C10(ctx):
             c += ["eq 0 1"]
             cases.append(c)
             meta.append((g, kind, eq_at))
-            ctx.dist[f"pair:{['clone','clone','same-history','near-miss'][kind]}"] += 1
+            ctx.dist[f"pair:{['clone','clone_from','same-history','near-miss'][kind]}"] += 1
     for g in ("Hc128Rng", "IsaacRng", "Isaac64Rng"):
         info = GENS[g]
         blk, nat = info["blk"], native(g)
@@ -1917,6 +1923,17 @@ def tie_C16(ctx):
         cases.append(head + ["u32 1", "calls 0", "clone 4 1", "u32 4", "calls 0", "u32 1", "calls 0", "u64 3", "u64 3", "u32 4", "u32 1"])
         meta.append((2, 1))
         ctx.dist[f"special-word:{name}"] += 2
+    # clone_from (Clone::clone_from may be overridden: Vec::clone_from / clone_from_slice call it): a destination that holds
+    # a pending half of its own must not keep it, nor take over the source's
+    for i in range(ctx.scale(24, 300)):
+        r = rng.choice([1, 2, 3, 5])
+        hx, hx2 = rd_hex(good_readings(rng, 40 + 3 * (r + 3) * 8)), rd_hex(good_readings(rng, 60))
+        dst_pending, src_pending = i % 2 == 0, i % 4 < 2
+        c = [f"timer 0 {hx}", "jit 1 0", f"rounds 1 {r}", f"timer 2 {hx}", "jit 3 2", f"rounds 3 {r}",
+             f"timer 4 {hx2}", "jit 5 4", f"rounds 5 {r}", "u32 5" if dst_pending else "u64 5", "u32 1" if src_pending else "u64 1",
+             "calls 0", "clonefrom 5 1", "u32 5", "calls 0", "u32 1", "calls 0", "u64 3", "u64 3"]
+        cases.append(c); meta.append((5, r))
+        ctx.dist[f"clone_from:dst_pending={dst_pending},src_pending={src_pending}"] += 1
     # real-vs-real (twin on an identical timer); the Jitter model itself is tied to the code by C12's absolute tie
     h = ctx.real("JitterRng halves, fresh collections, clones: twins on identical timer scripts with call counts", cases)
     ctx.traces_validated += len(cases)
@@ -1924,6 +1941,18 @@ def tie_C16(ctx):
         b = o[6:]
         fresh = 1 + 3 * (1 + r)
         if "blocked" in o:
+            continue
+        if shape == 5:
+            if o[12] != "ok":
+                continue
+            c1, c2, c3 = int(o[11]), int(o[14]), int(o[16])
+            w1, w2 = o[17], o[18]
+            src_pending = c[10].startswith("u32")
+            if c2 - c1 < fresh or o[13] != w2[8:]:
+                ctx.fail("clone", "after dst.clone_from(&src) the destination's first next_u32 does not come from a fresh collection "
+                         "(it kept a pending-half flag and handed out a half of the source's value)", c, expected=w2[8:], actual=o[13])
+            if src_pending and (c3 != c2 or o[15] != w1[:8]):
+                ctx.fail("clone", "the source lost its pending high half after clone_from", c, expected=w1[:8], actual=o[15])
             continue
         if shape == 0:
             lo, c1, hi, c2, w, ct = b[0], int(b[1]), b[2], int(b[3]), b[4], int(b[5])
@@ -2009,6 +2038,17 @@ def tie_C17(ctx):
     for i in range(ctx.scale(20, 200)):
         rs, rs2 = good_readings(rng, 200), good_readings(rng, 200)
         ops = rng.choice([[], ["u32"], ["u64"], ["u32", "u32"], ["u64", "u32"], ["fill 9"]])
+        if i % 2 == 1:
+            # one of the two timers misbehaves for a while (a run of stuck measurements inside a collection, a backwards step,
+            # huge deltas) and recovers: internal health statistics must not show in the text either
+            run = rng.choice([9, 24, 25, 40, 130, 260, 300])
+            lead = 1          # priming measurement, one accepted round, then the run begins inside the rounds loop
+            deltas = [rng.randrange(900, 5000) for _ in range(lead)] + [1000] * run + [rng.randrange(900, 5000) for _ in range(60)]
+            if i % 4 == 3:
+                deltas[-3] = -rng.randrange(1, 500); deltas[-5] = 0x7fffffff
+            rs = meas_script(rng, deltas)
+            ops = rng.choice([["u64"], ["u32", "u32"], ["u64", "u32"], ["fill 9"], ["u64", "u64"]])
+            ctx.dist["JitterRng:faulty-timer-vs-healthy"] += 1
         c = [f"timer 0 {rd_hex(rs)}", "jit 1 0", "rounds 1 2", f"timer 2 {rd_hex(rs2)}", "jit 3 2", "rounds 3 2"] + \
             op_lines(1, ops) + op_lines(3, ops) + ["dbg 3", "dbgp 3", "dbg 1", "dbgp 1", "pool 1"]
         cases.append(c); meta.append(("JitterRng", len(c) - 5))
